@@ -287,6 +287,21 @@ def oracle_resolve(rng):
         third = p1.solve(verbose=False, max_iters=150)
         xf, cf, of = make()
         fresh = cl.Problem(cl.MIN, of, cf).solve(verbose=False)
+    # options given to the CONSTRUCTOR of another Problem belong to that Problem only
+    with warnings.catch_warnings():
+        warnings.simplefilter('ignore')
+        zz = cl.Variable(shape=(1,), name='unrelated_z')
+        other = cl.Problem(cl.MIN, zz[0], [zz >= 1], max_iters=1)
+        xg, cg, og = make()
+        pg = cl.Problem(cl.MIN, og, cg)
+        if 'max_iters' in pg.problem_options:
+            return 'a Problem built after Problem(..., max_iters=1) carries that option: %s' % sorted(pg.problem_options)
+        after_other = pg.solve(verbose=False)
+        if 'max_iters' in p1.problem_options:
+            return 'a Problem built BEFORE Problem(..., max_iters=1) now carries that option: %s' % sorted(p1.problem_options)
+    if after_other[0] != fresh[0] or (np.isfinite(fresh[1]) and not abs(after_other[1] - fresh[1]) <= 1e-5 * (1 + abs(fresh[1]))):
+        return 'model spec %s: after an unrelated Problem(MIN, z, [z >= 1], max_iters=1) was constructed, a fresh copy solves to %r instead of %r' % (
+            spec, after_other, fresh)
     for label, got in (('a plain solve()', again), ('solve(max_iters=150)', third)):
         if got[0] != fresh[0] or (np.isfinite(fresh[1]) and not abs(got[1] - fresh[1]) <= 1e-5 * (1 + abs(fresh[1]))):
             return 'model spec %s: after solve(max_iters=1 or 2) returned %r, %s of the same Problem returns %r; a fresh copy solves to %r' % (
@@ -369,6 +384,13 @@ def oracle_generations(rng):
         p_old = cl.Variable(shape=(2,), name='gp')
         cl.clear_variable_indices()
         q_new = cl.Variable(shape=(2,), name='gq')
+        # ... also when the two Variables only ever meet INSIDE the same scalar expressions (equal ids in one dict of atoms)
+        try:
+            pr = cl.Problem(cl.MAX, p_old[0] + 0.0, [p_old[0] + q_new[0] <= 1, p_old[0] - q_new[0] <= 0.5])
+            return ('a Problem in which a Variable of an earlier generation and one of the current generation with the same index only meet inside '
+                    'the same scalar expressions (x_old + y_new <= 1, x_old - y_new <= 0.5) was built (A is %s) instead of rejected' % (pr.A.shape,))
+        except RuntimeError:
+            pass
         for cons in ([p_old >= 1, q_new >= 2], [q_new >= 2, p_old >= 1], [p_old[0] + q_new[1] >= 1, p_old <= 5, q_new <= 5]):
             try:
                 pr = cl.Problem(cl.MIN, p_old[0] + q_new[0], cons)
